@@ -118,6 +118,10 @@ impl Metrics {
     pub(crate) fn verif_collect(&self) -> String {
         String::from_utf8_lossy(&self.collect().1).to_string()
     }
+
+    pub(crate) fn verif_outbound_udp_sockets(&self) -> i64 {
+        self.outbound_udp_sockets.get()
+    }
 }
 
 impl ClientSessionsCounter {
